@@ -495,12 +495,16 @@ func (x *Exec) switchStmt(s *ast.SwitchStmt, st *State, cs []*ctl, label string)
 	ncs := append(append([]*ctl(nil), cs...), frame)
 	var outs []*State
 	rest := st // state in which no earlier case matched
-	var deflt *ast.CaseClause
-	var conds []*Term
-	for _, cl := range s.Body.List {
+	// pass 1: the state in which each clause is selected (nil: never)
+	entry := make([]*State, len(s.Body.List))
+	defltIdx := -1
+	for ci, cl := range s.Body.List {
 		cc := cl.(*ast.CaseClause)
 		if cc.List == nil {
-			deflt = cc
+			defltIdx = ci
+			continue
+		}
+		if rest == nil {
 			continue
 		}
 		var alts []*Term
@@ -513,24 +517,53 @@ func (x *Exec) switchStmt(s *ast.SwitchStmt, st *State, cs []*ctl, label string)
 			}
 		}
 		c := Or(alts...)
-		conds = append(conds, c)
 		if !c.IsFalse() {
 			sa := rest.clone()
 			sa.add(c)
-			outs = append(outs, x.caseBody(cc, sa, ncs)...)
+			entry[ci] = sa
+		}
+		if c.IsTrue() {
+			rest = nil
+			continue
 		}
 		rest = rest.clone()
 		rest.add(Not(c))
-		if c.IsTrue() {
-			rest = nil
-			break
-		}
 	}
 	if rest != nil {
-		if deflt != nil {
-			outs = append(outs, x.caseBody(deflt, rest, ncs)...)
+		if defltIdx >= 0 {
+			entry[defltIdx] = rest
 		} else {
 			outs = append(outs, rest)
+		}
+	}
+	// pass 2: bodies in source order; a body ending in fallthrough continues
+	// with the next clause's body
+	var falling []*State
+	for ci, cl := range s.Body.List {
+		cc := cl.(*ast.CaseClause)
+		var in []*State
+		if entry[ci] != nil {
+			in = append(in, entry[ci])
+		}
+		in = append(in, falling...)
+		falling = nil
+		if len(in) == 0 {
+			continue
+		}
+		body := cc.Body
+		falls := false
+		if n := len(body); n > 0 {
+			if br, ok := body[n-1].(*ast.BranchStmt); ok && br.Tok == token.FALLTHROUGH {
+				falls = true
+				body = body[:n-1]
+			}
+		}
+		in = x.mergeMany(in)
+		res := x.stmts(body, in, ncs)
+		if falls {
+			falling = res
+		} else {
+			outs = append(outs, res...)
 		}
 	}
 	outs = append(outs, breaks...)
